@@ -4,7 +4,7 @@
 # retries this itself if .deps is missing, and falls back to plain wrapper monitors if it fails.
 cd "$(dirname "${BASH_SOURCE[0]}")" || exit 1
 export PIP_NO_INDEX=1
-/venv/bin/python -m pip install --quiet --no-index --find-links /opt/veriftools/wheels --target .deps icontract \
+[ -d .deps/icontract ] || /venv/bin/python -m pip install --quiet --no-index --find-links /opt/veriftools/wheels --target .deps icontract \
   || echo "setup: icontract not installed; plain wrapper monitors will be used"
 mkdir -p evidence/replay
 /venv/bin/python -c "import sys; sys.path.insert(0,'.'); from vlib import env; print('tree under test:', env.setup())"
